@@ -123,7 +123,7 @@ func gen(t *rapid.T) Case {
 	prev.String2Int64 = rapid.Bool().Draw(t, "prevString2int64")
 	prev.NoBase64Binary = rapid.Bool().Draw(t, "prevNoBase64")
 	prev.DisallowUnknown = rapid.Bool().Draw(t, "prevDisallow")
-	cfg := tm.GenCfg{MaxDepth: 3, KeyKinds: tjson.SupportedKeys, Reqs: true, Aliases: true, Recursive: true, WireOrder: true, ValidUTF8: true, FiniteDoubles: true,
+	cfg := tm.GenCfg{MaxDepth: 3, KeyKinds: tjson.SupportedKeys, Reqs: true, Aliases: true, Lookalike: true, Recursive: true, WireOrder: true, ValidUTF8: true, FiniteDoubles: true,
 		BigSizes: rapid.IntRange(0, 4).Draw(t, "bigSizes") == 0, BigIDs: rapid.IntRange(0, 3).Draw(t, "bigIDs") == 0}
 	u := tm.GenUniverse(t, cfg)
 	tjson.AddJSConvTo(t, u, false)
